@@ -45,6 +45,7 @@ void gen_hist_ops(Rng& g, Rng& fr, const std::string& prop, unsigned nops, bool 
       if (code == OP_DECREF && n_pool <= 1 && i + 1 < nops && tries < 10) continue;
       break;
     }
+    if (nops <= 40 && g.chance(1, prop == "C12" || prop == "C03" ? 2500 : 20000)) { HOp b; b.code = OP_BIG; b.a = prop == "C03" ? 3 : prop == "C12" ? g.below(3) : g.below(4); b.b = g.next() >> 8; b.c = g.next() >> 8; ops.push(hop_to_json(b)); }
     if (deep_follow > 0 && i + 1 < nops + 3) { static const int F[] = {OP_SIZE, OP_SERIALIZE, OP_SERIALIZE_ALLOC, OP_DESCRIBE, OP_COPY}; code = F[g.below(5)]; }
     HOp o; o.code = code; o.a = g.next() >> 8; o.b = g.next() >> 8; o.c = g.next() >> 8; o.d = g.below(16);
     switch (code) {
@@ -88,6 +89,7 @@ J gen_hist(const std::string& prop, uint64_t run_seed, const std::string& tier) 
   knobs.set("rm", kn.below(2));
   knobs.set("maxreq", (uint64_t)1 << 20);
   knobs.set("fill", kn.below(4) == 0 ? kn.range(1, 2) : 0);   // fresh memory: mostly 0xAA, sometimes all-zero or all-ones
+  knobs.set("fpmode", kn.below(4) == 0 ? 1 : 0);   // a quarter of the runs with FTZ/DAZ set in the thread's MXCSR
   plan.set("knobs", knobs);
   bool long_run = kn.chance(1, 12);
   unsigned nops = long_run ? (unsigned)kn.range(100, tier == "thorough" ? 2500 : 500) : (unsigned)kn.range(2, 14);
